@@ -221,6 +221,7 @@ type hist struct {
 	muts     map[string]bool
 	f21      bool
 	live     bool
+	honour   bool
 	t0       time.Time
 }
 
@@ -710,6 +711,8 @@ func historyCase(r drv.Rand, w *emit.Writer, extra map[string]int) {
 	h.st = refstore.New(opfix.DefaultSigning())
 	h.live = r.Chance(1, 3) // the storage hands out its live device state (as the example storage does) instead of copies
 	h.st.SetLiveDeviceState(h.live)
+	h.honour = r.Bool() // every storage method fails with ctx.Err() on a context that is already done (database-like storage)
+	h.st.SetHonourContext(h.honour)
 	for _, c := range h.clients {
 		grants := []oidc.GrantType{oidc.GrantTypeCode}
 		if c.dev {
@@ -821,6 +824,11 @@ func historyCase(r drv.Rand, w *emit.Writer, extra map[string]int) {
 	if h.f21 {
 		tags = append(tags, "f21=1")
 	}
+	if h.honour {
+		tags = append(tags, "ctx=honoured")
+	} else {
+		tags = append(tags, "ctx=ignored")
+	}
 	if h.live {
 		tags = append(tags, "devstate=live")
 	} else {
@@ -859,7 +867,7 @@ func main() {
 			Observed: emit.Ctor("OUserCode", emit.Some(emit.Str("BA"))), Tags: []string{"kind=selftest"}})
 	}
 	err := w.Close(emit.Meta{Property: "C16", Tier: cfg.Tier, Seed: cfg.Seed,
-		Rule:  "2 of 3 cases: a history of 6-15 device_authorization/approve/deny/poll operations by 2-3 clients (confidential web, public native, optionally a post/JWT/spa/no-device-grant client) on both routers over one refstore; the provider's issuer is static (with or without a path component) or derived from every request (IssuerFromHost / IssuerFromForwardedOrHost) and every request - device authorization and token request alike - arrives under its own Host / Forwarded header, so one provider instance serves requests under different issuers (iss of the ID token / JWT access token is observed); the storage hands out copies of its device state or the live state (devstate=); scope lists: none, single, subsets in usual / shuffled order, repetitions at the start / adjacent / middle / end / of the first element, all elements equal, 20-80 scopes beyond 1 and 4 KiB, unregistered / near-miss (case, U+017F, U+212A) / keyword-like scopes; UserFormPath or the deprecated absolute UserFormURL: flow-first (start a flow with canonical credentials, poll, approve, poll) with mutations (foreign client, wrong/missing/post/mixed credentials, client ids that differ by case / white space / trailing slash, a private_key_jwt client without assertion, unknown code incl. case / white-space / padding / keyword variants of an issued one, user code as device code, storage deadline/error, bogus user codes, expired devices via negative lifetime, exhausted random source); 1 of 3 cases: op.NewUserCode directly with crypto/rand.Reader pinned (alphabets incl. non-ASCII, 1, 256 and 300 runes, dash 0 / 1 / >= n, F17 classes). Non-trivial = a history in which a device code was issued, or a produced user code; distinct = distinct (input hash, set of answer kinds).",
+		Rule:  "2 of 3 cases: a history of 6-15 device_authorization/approve/deny/poll operations by 2-3 clients (confidential web, public native, optionally a post/JWT/spa/no-device-grant client) on both routers over one refstore; the provider's issuer is static (with or without a path component) or derived from every request (IssuerFromHost / IssuerFromForwardedOrHost) and every request - device authorization and token request alike - arrives under its own Host / Forwarded header, so one provider instance serves requests under different issuers (iss of the ID token / JWT access token is observed); the storage hands out copies of its device state or the live state (devstate=) and ignores the state of the context it is called with or fails with ctx.Err() on a done context in every method (ctx=); scope lists: none, single, subsets in usual / shuffled order, repetitions at the start / adjacent / middle / end / of the first element, all elements equal, 20-80 scopes beyond 1 and 4 KiB, unregistered / near-miss (case, U+017F, U+212A) / keyword-like scopes; UserFormPath or the deprecated absolute UserFormURL: flow-first (start a flow with canonical credentials, poll, approve, poll) with mutations (foreign client, wrong/missing/post/mixed credentials, client ids that differ by case / white space / trailing slash, a private_key_jwt client without assertion, unknown code incl. case / white-space / padding / keyword variants of an issued one, user code as device code, storage deadline/error, bogus user codes, expired devices via negative lifetime, exhausted random source); 1 of 3 cases: op.NewUserCode directly with crypto/rand.Reader pinned (alphabets incl. non-ASCII, 1, 256 and 300 runes, dash 0 / 1 / >= n, F17 classes). Non-trivial = a history in which a device code was issued, or a produced user code; distinct = distinct (input hash, set of answer kinds).",
 		Extra: map[string]any{"clock_ambiguous": extra["clock_ambiguous"]},
 		Notes: []string{"f17=1: user-code configurations that made op.NewUserCode panic before fix F17; f21=1: a client without the device grant starts a flow on the Legacy router (former defect F21, fixed by C05)"},
 	})
